@@ -12,7 +12,11 @@ RULE = ("scripted loopback TCP peers against the real socks5.Scanner.Scan with 8
         "/ without reading, reset, one byte+reset, flood, late first/second byte, slow-but-in-time, a complete reply followed by a one-byte-per-quarter-"
         "timeout trickle or an endless flood, cancellation before / "
         "during dial / during read / between reads / after the end, dial timeout 0, data timeout <= 0, negative dial "
-        "timeout; a concurrent stage: ONE Scanner shared by 64 goroutines (as the scan engine shares it) against 12 peers with "
+        "timeout; Scanner-reuse cases (always, 32; thorough 320): the measured Scan is NOT the Scanner's first -- the same "
+        "Scanner first completes 1-3 Scans under other contexts (left live or cancelled afterwards), then a Scan under a "
+        "fresh context of its own is cancelled during the read / between the reads / during the dial / before the call, or "
+        "meets a stalling or a 05 00 peer, judged like every other Scan (returns promptly after ITS context is cancelled, "
+        "time bound, reported iff 05 00); a concurrent stage: ONE Scanner shared by 64 goroutines (as the scan engine shares it) against 12 peers with "
         "different answers, 30000 probes each judged on its own (thorough: 400000, a -race build, and a 1200-attempt "
         "cancel-right-after-connect race sweep); end-to-end runs of the sx binary; "
         "non-trivial = the connection was established; distinct by (class, reply bytes, script shape)")
@@ -137,6 +141,9 @@ def spec_on_impl(o):
             return "the record carries version %s / scan type %s" % (r.get("version"), r.get("scan"))
     elif st is not None and st[:2] == [5, 0] and comfortably_in_time(o):
         return "not reported (%s) although the peer answered 05 00 in time" % OBS.get(obs, obs)
+    if obs == 11 and o["cancel"] > 0:
+        return ("Scan did not return after its context was cancelled at %d ms (%s; it came back or was given up after %.0f ms, "
+                "data timeout %d ms)" % (o["cancel"], o["err"], o["dur_ms"], o["tdata"]))
     if obs == 11:
         return "Scan did not return (%s)" % o["err"]
     b = time_bound(o)
@@ -475,23 +482,37 @@ def report_race(ctx, r, why):
 
 
 def shape(o):
-    return (o["class"], o["mode"], o["read_first"], tuple((a["kind"], tuple((a.get("data") or [])[:2])) for a in o["actions"] or []))
+    return (o["class"], o["mode"], o["read_first"], o.get("prior", 0), bool(o.get("prior_cancel")), tuple((a["kind"], tuple((a.get("data") or [])[:2])) for a in o["actions"] or []))
 
 
 def finding_key(o):
     return "%s:%s" % (o["class"], OBS.get(o["obs"], o["obs"]))
 
 
+def with_history(o, why):
+    """name the history of a Scanner-reuse case in the finding"""
+    if why and o.get("prior"):
+        return ("after %d completed Scan call(s) on the SAME Scanner, each under a context of its own (%s; their peers answered "
+                "%s; outcomes %s), a Scan under a fresh context: %s" % (
+                    o["prior"], "cancelled once its Scan had returned" if o.get("prior_cancel") else "still live",
+                    " ".join("%02x" % b for b in o.get("prior_reply") or []),
+                    [OBS.get(x, x) for x in o.get("prior_obs") or []], why))
+    return why
+
+
 def report(ctx, o, why):
+    why = with_history(o, why)
     # one replay per kind of failure is enough; at most six in all
     if len(ctx.findings) >= 6 or any(f["key"] == finding_key(o) for f in ctx.findings):
         ctx.suppressed = getattr(ctx, "suppressed", 0) + 1
         return
     path = ctx.write_replay("case%d" % o["id"], {
         "property": "C09", "what": why, "input": dict({k: o[k] for k in (
-            "id", "class", "tdial", "tdata", "cancel", "mode", "read_first", "actions", "ip")}, e2e=bool(o.get("e2e"))),
+            "id", "class", "tdial", "tdata", "cancel", "mode", "read_first", "actions", "ip")}, e2e=bool(o.get("e2e")),
+            **{k: o[k] for k in ("prior", "prior_cancel", "prior_reply") if o.get(k)}),
         "observed": {"outcome": OBS.get(o["obs"], o["obs"]), "err": o["err"], "dur_ms": o["dur_ms"], "greet": o["greet"],
-                     "rec": o["rec"], "port": o["port"]},
+                     "rec": o["rec"], "port": o["port"], **({"prior_outcomes": [OBS.get(x, x) for x in o["prior_obs"]]}
+                                                            if o.get("prior_obs") else {})},
         "replay_cmd": "bin/check C09 --replay <this file>"})
     ctx.findings.append({"key": finding_key(o), "what": why, "replay": path})
 
@@ -662,7 +683,8 @@ def run(ctx):
     proof_ok = gen_ok and ctx.coq_proofs("Properties/C09.v")
     rows = []
     if ctx.harness_build("c09"):
-        args = ["-out", "cases.jsonl", "-seed", ctx.seed, "-n", 330 if quick else 3000, "-sample", 200]
+        args = ["-out", "cases.jsonl", "-seed", ctx.seed, "-n", 330 if quick else 3000, "-sample", 200,
+                "-reuse", 32 if quick else 320]
         sx = build_sx(ctx)
         if sx:
             args += ["-e2e", sx]
@@ -694,6 +716,9 @@ def run(ctx):
         ctx.count(o["class"], shape(o), nontrivial=(o["mode"] == "accept"),
                   sample={"class": o["class"], "timeouts_ms": [o["tdial"], o["tdata"]], "cancel_ms": o["cancel"],
                           "mode": o["mode"], "actions": o["actions"][:3] if o["actions"] else [],
+                          **({"prior_scans_on_same_scanner": o["prior"], "prior_contexts": "cancelled" if o.get("prior_cancel")
+                              else "live", "prior_outcomes": [OBS.get(x, x) for x in o.get("prior_obs") or []]}
+                             if o.get("prior") else {}),
                           "outcome": OBS.get(o["obs"], o["obs"]), "dur_ms": o["dur_ms"]})
         if o["obs"] >= 98:
             ctx.broken.append(("correspondence: harness could not run case %d (%s)" % (o["id"], o["err"]), ""))
@@ -798,7 +823,7 @@ def replay(ctx, path):
         if not got:
             return 1
         o = got[0]
-        why = spec_on_impl(o)
+        why = with_history(o, spec_on_impl(o))
         print("replay case %s (%s): outcome=%s dur=%.1f ms err=%r -> %s" % (
             c.get("id"), c.get("class"), OBS.get(o["obs"], o["obs"]), o["dur_ms"], o["err"],
             why or "property holds on this input"))
